@@ -347,6 +347,12 @@ def run(ctx) -> None:
     ctx.guard_as("R07.13", _r03_6)
     from .c15 import r15_2 as _r15_2
     ctx.guard_as("R07.14", _r15_2, "jws")  # RFC 7797 tokens of another implementation: "b64" needs to be IN crit, crit may list more
+    from .common import member_crossing
+    ctx.guard(member_crossing, "R07.15", "jws")  # "yield the same payload and header": each named member of a parsed token is filled from the member of that name, under a test of its own presence
+    from .c20 import r20_1 as _r20_1
+    from ..effects import Effects as _Fx
+    from .common import in_family as _inf
+    ctx.guard_as("R07.16", _r20_1, _Fx(ctx.eng.prog, ctx.eng.cg), {f for f in ctx.eng.prog.all_functions() if _inf(f, "jws")})  # the signing input that is verified is this token's own segments (no class-level containers)
     ctx.guard(r07_10)
     ctx.guard(r07_11)
     ctx.guard(r07_12)
